@@ -58,6 +58,8 @@ def run(chk, replay=None):
         "and the kernel completes entries asynchronously); each *_refuted witness has its real-thread case (resubmit / prestop / stoprace)",
         "modelled not verified here: the stop source internals (C03) - one linearisation point per registration / request_stop / "
         "deregistration; the atomic_intrusive_queue at link level (C06 AtomicQueue); timers of the I/O contexts (C07's models)",
+        "FdOwner (Properties_C14_fd.v): K3, harness/k3_fdowner.cpp runs generated operation sequences on the real "
+        "safe_file_descriptor / mmap_region with the process' close()/munmap() interposed; the kernel's lowest-free-number rule is assumed",
         "model variant tied to the code: tools/units/io.py MODEL_VARIANT = %r" % io.VARIANT]
     chk.cov["rule"] = ("K1: all schedules of each program with <= bound preemptions (truncated at maxruns) plus seeded random ones; "
                        "distinct = distinct projected traces; non-trivial = at least two context switches among owned events")
@@ -69,3 +71,4 @@ def run(chk, replay=None):
     for u in io.extra_units():
         k1.run_unit(_Keyed(chk, u.ctx), u)
     io.run_uring(chk)
+    io.run_fdowner(chk)
